@@ -87,6 +87,7 @@ func cmdCheck(args []string) int {
 		ids = []string{id}
 	}
 	start := time.Now()
+	zv.Thorough = *tier == "thorough"
 	configs := [][2]string{{"", ""}}
 	if *tier == "thorough" {
 		configs = [][2]string{{"", ""}, {"linux", "386"}, {"windows", "amd64"}, {"darwin", "arm64"}, {"windows", "386"}}
